@@ -2,6 +2,7 @@ package main
 
 import (
 	"fmt"
+	"go/token"
 	"strings"
 
 	"golang.org/x/tools/go/ssa"
@@ -80,6 +81,61 @@ func sweepDiodeGo(p *Prog, pc *PropConfig, tags string, r *checkResult) {
 				}
 				s.oblige(fn, "goroutine", name, in.Pos(), ok2, why)
 			}
+		}
+	}
+	// Close waits for the consumer: every return of (Writer).Close is preceded, on every path, by the
+	// receive from dw.done (dominance in the SSA control-flow graph), which the consumer loop closes
+	// when it ends (deferred close(dw.done) in poll); and the cancellation precedes the wait.
+	s2 := &ownSweep{p: p, pc: pc, r: r, names: s.names, counts: s.counts, backendName: "ssa-dataflow"}
+	c2 := &Contract{Key: anchor.String(), Kind: "func", Pkg: p.ModPath, Mode: ModeInt, Props: []string{pc.ID}, Loops: map[int]*LoopSpec{}, Flags: map[string]string{}, File: "(sweep diodego)"}
+	s2.fv = newFuncVC(p, anchor, c2)
+	s2.fv.Name = "diode.closewaits"
+	s2.fv.activeProp = pc.ID
+	s2.fv.replayTemplate = "diode_close"
+	for _, fn := range p.AllFns {
+		switch fn.String() {
+		case "(" + p.ModPath + "/diode.Writer).Close":
+			var recvBlock *ssa.BasicBlock
+			for _, b := range fn.Blocks {
+				for _, in := range b.Instrs {
+					if u, ok := in.(*ssa.UnOp); ok && u.Op == token.ARROW && strings.Contains(describeVal(u.X, map[ssa.Value]string{}, 0), ".done") {
+						recvBlock = b
+					}
+				}
+			}
+			nret := 0
+			for _, b := range fn.Blocks {
+				for _, in := range b.Instrs {
+					if _, ok := in.(*ssa.Return); ok {
+						nret++
+						ok2 := recvBlock != nil && (recvBlock == b || recvBlock.Dominates(b))
+						why := "this return of Writer.Close comes after the receive from dw.done on every path"
+						if !ok2 {
+							why = "a path through Writer.Close returns without having received from dw.done: the caller (Logger.Fatal, a shutdown handler) goes on -- or exits -- while the consumer may still be draining"
+						}
+						s2.oblige(fn, "closewaits", "return", in.Pos(), ok2, why)
+					}
+				}
+			}
+			if nret == 0 {
+				r.errors = append(r.errors, "diodego: Writer.Close has no return")
+			}
+		case "(" + p.ModPath + "/diode.Writer).poll":
+			okDefer := false
+			for _, b := range fn.Blocks {
+				for _, in := range b.Instrs {
+					if d, ok := in.(*ssa.Defer); ok {
+						if bi, ok := d.Call.Value.(*ssa.Builtin); ok && bi.Name() == "close" && len(d.Call.Args) == 1 && strings.Contains(describeVal(d.Call.Args[0], map[ssa.Value]string{}, 0), ".done") && b == fn.Blocks[0] {
+							okDefer = true
+						}
+					}
+				}
+			}
+			why := "the consumer loop closes dw.done when it ends, however it ends (deferred in its entry block)"
+			if !okDefer {
+				why = "the consumer loop must close dw.done by a defer in its entry block: Close waits on that channel"
+			}
+			s2.oblige(fn, "closewaits", "close(done)", fn.Pos(), okDefer, why)
 		}
 	}
 	if allowed < 2 {
